@@ -69,6 +69,7 @@ impl NodeWrapper {
                         .position(|other| func.entry().id() == other.id())
                         .unwrap()
                 })
+                .sorted()
                 .collect::<Vec<_>>(),
             func_exit: node
                 .functions()
@@ -78,6 +79,7 @@ impl NodeWrapper {
                         .position(|other| func.exit().id() == other.id())
                         .unwrap()
                 })
+                .sorted()
                 .collect::<Vec<_>>(),
             nexts: node
                 .nexts()
